@@ -355,7 +355,9 @@ fn parse_v_model_directive(
 /// Can `expr` stand on the left of `=`? (TypeScript's type-only wrappers don't matter.)
 fn is_assignment_target(expr: &Expr) -> bool {
     match expr {
-        Expr::Ident(..) | Expr::Member(..) | Expr::SuperProp(..) => true,
+        // modules are strict code: `eval = ...` and `arguments = ...` are syntax errors
+        Expr::Ident(ident) => !matches!(&*ident.sym, "eval" | "arguments"),
+        Expr::Member(..) | Expr::SuperProp(..) => true,
         Expr::Paren(ParenExpr { expr, .. })
         | Expr::TsAs(TsAsExpr { expr, .. })
         | Expr::TsNonNull(TsNonNullExpr { expr, .. })
